@@ -24,8 +24,20 @@ pub type Cid = usize;
 #[derive(Clone, Copy, PartialEq, Debug)]
 enum Src {
     Cell(Cid, u64),
-    Task(Tid),
+    /// a pending join (registration, target task): counts only while the joining future exists
+    Task(usize, Tid),
     Group(Gid),
+    /// a pending receive on a task-to-task channel (receiver, channel version seen): the channel is
+    /// never closed, so this is a live wake source for as long as the receiving future exists
+    Recv(usize, u64),
+}
+
+#[derive(Default)]
+struct RefChan {
+    queue: VecDeque<u32>,
+    version: u64,
+    /// wakers of the pending receivers (sub-executors inside a task re-poll only woken children)
+    wakers: Vec<Waker>,
 }
 
 pub struct Cell {
@@ -70,6 +82,8 @@ struct Task {
     retaining: bool,
     /// how many such constructs the task is inside of right now
     retaining_depth: u32,
+    /// wakers of pending joins on this task (sub-executors inside a task re-poll only woken children)
+    join_wakers: Vec<Waker>,
 }
 
 #[derive(Default)]
@@ -88,6 +102,11 @@ pub struct World {
     /// handles that were used before their command was launched
     pre_aborted: Vec<u16>,
     exports: Vec<(Path, JoinH)>,
+    chans: Vec<RefChan>,
+    /// joining futures created so far: dropped or finished?
+    joins_gone: Vec<bool>,
+    /// receiving futures created so far: (channel, dropped or finished)
+    recvs: Vec<(usize, bool)>,
     pre_dropped: Vec<Path>,
     /// groups of the commands returned by update (command API), in launch order
     hosted: Vec<Gid>,
@@ -136,15 +155,17 @@ impl World {
     fn live(&self, s: &Src) -> bool {
         match *s {
             Src::Cell(c, _) => !self.cells[c].dropped && !self.cells[c].consumer_gone,
-            Src::Task(t) => self.tasks[t].is_some(),
+            Src::Task(j, t) => !self.joins_gone[j] && self.tasks[t].is_some(),
             Src::Group(g) => !self.done(g),
+            Src::Recv(r, _) => !self.recvs[r].1,
         }
     }
     fn changed(&self, s: &Src) -> bool {
         match *s {
             Src::Cell(c, v) => self.cells[c].version != v && !self.cells[c].consumer_gone,
-            Src::Task(t) => self.tasks[t].is_none(),
+            Src::Task(j, t) => !self.joins_gone[j] && self.tasks[t].is_none(),
             Src::Group(g) => self.done(g),
+            Src::Recv(r, v) => !self.recvs[r].1 && self.chans[self.recvs[r].0].version != v,
         }
     }
     fn aborted_ancestors(&self, g: Gid) -> Vec<Gid> {
@@ -188,7 +209,7 @@ impl World {
     fn add_task(&mut self, group: Gid, path: Option<Path>, legacy: bool, fut: BoxFuture<'static, ()>) -> (Tid, Arc<AtomicBool>, Arc<AtomicBool>) {
         let aborted = Arc::new(AtomicBool::new(false));
         let finished = Arc::new(AtomicBool::new(false));
-        self.tasks.push(Some(Task { path, fut: Some(fut), group, aborted: aborted.clone(), finished: finished.clone(), waiting: vec![], polled_once: false, self_woken: false, legacy, retaining: false, retaining_depth: 0 }));
+        self.tasks.push(Some(Task { path, fut: Some(fut), group, aborted: aborted.clone(), finished: finished.clone(), waiting: vec![], polled_once: false, self_woken: false, legacy, retaining: false, retaining_depth: 0, join_wakers: vec![] }));
         self.groups[group].live_tasks += 1;
         (self.tasks.len() - 1, aborted, finished)
     }
@@ -303,6 +324,57 @@ impl Drop for RefSub {
     }
 }
 
+struct RefJoin {
+    w: Arc<Mutex<World>>,
+    fin: Arc<AtomicBool>,
+    tid: Tid,
+    jid: usize,
+}
+impl Future for RefJoin {
+    type Output = ();
+    fn poll(self: Pin<&mut Self>, cx: &mut Context<'_>) -> Poll<()> {
+        if self.fin.load(Ordering::SeqCst) {
+            return Poll::Ready(());
+        }
+        let mut w = self.w.lock().unwrap();
+        w.cur_wait.push(Src::Task(self.jid, self.tid));
+        if let Some(t) = w.tasks[self.tid].as_mut() {
+            t.join_wakers.push(cx.waker().clone());
+        }
+        Poll::Pending
+    }
+}
+impl Drop for RefJoin {
+    fn drop(&mut self) {
+        self.w.lock().unwrap().joins_gone[self.jid] = true;
+    }
+}
+
+struct RefRecv {
+    w: Arc<Mutex<World>>,
+    id: usize,
+    c: usize,
+}
+impl Future for RefRecv {
+    type Output = u32;
+    fn poll(self: Pin<&mut Self>, cx: &mut Context<'_>) -> Poll<u32> {
+        let mut w = self.w.lock().unwrap();
+        let c = self.c;
+        if let Some(v) = w.chans[c].queue.pop_front() {
+            return Poll::Ready(v);
+        }
+        let ver = w.chans[c].version;
+        w.cur_wait.push(Src::Recv(self.id, ver));
+        w.chans[c].wakers.push(cx.waker().clone());
+        Poll::Pending
+    }
+}
+impl Drop for RefRecv {
+    fn drop(&mut self) {
+        self.w.lock().unwrap().recvs[self.id].1 = true;
+    }
+}
+
 impl Rt for RefRt {
     fn notify(&self, op: Op) -> BoxFuture<'static, ()> {
         self.w.lock().unwrap().push_effect(op, Some(self.group));
@@ -346,17 +418,12 @@ impl Rt for RefRt {
         let w = self.w.clone();
         JoinH {
             wait: Arc::new(move || {
-                let fin = finished.clone();
-                let w = w.clone();
-                futures::future::poll_fn(move |_| {
-                    if fin.load(Ordering::SeqCst) {
-                        Poll::Ready(())
-                    } else {
-                        w.lock().unwrap().cur_wait.push(Src::Task(tid));
-                        Poll::Pending
-                    }
-                })
-                .boxed()
+                let jid = {
+                    let mut w = w.lock().unwrap();
+                    w.joins_gone.push(false);
+                    w.joins_gone.len() - 1
+                };
+                RefJoin { w: w.clone(), fin: finished.clone(), tid, jid }.boxed()
             }),
             abort: {
                 let w = self.w.clone();
@@ -373,16 +440,38 @@ impl Rt for RefRt {
     fn yield_now(&self) -> BoxFuture<'static, ()> {
         let w = self.w.clone();
         let mut first = true;
-        futures::future::poll_fn(move |_| {
+        futures::future::poll_fn(move |cx| {
             if first {
                 first = false;
                 w.lock().unwrap().cur_selfwake = true;
+                // (a no-op for the task itself; a sub-executor inside the task re-polls only woken children)
+                cx.waker().wake_by_ref();
                 Poll::Pending
             } else {
                 Poll::Ready(())
             }
         })
         .boxed()
+    }
+    fn chan_send(&self, c: usize, v: u32) {
+        let wakers = {
+            let mut w = self.w.lock().unwrap();
+            let ch = &mut w.chans[c];
+            ch.queue.push_back(v);
+            ch.version += 1;
+            std::mem::take(&mut ch.wakers)
+        };
+        for wk in wakers {
+            wk.wake();
+        }
+    }
+    fn chan_recv(&self, c: usize) -> BoxFuture<'static, u32> {
+        let id = {
+            let mut w = self.w.lock().unwrap();
+            w.recvs.push((c, false));
+            w.recvs.len() - 1
+        };
+        RefRecv { w: self.w.clone(), id, c }.boxed()
     }
     fn export(&self, key: Path, h: JoinH) {
         self.w.lock().unwrap().exports.push((key, h));
@@ -446,6 +535,7 @@ impl RefRt {
         w.programs = u.programs.clone();
         w.follow = u.follow;
         w.legacy_host = legacy_host;
+        w.chans = (0..CHANS).map(|_| RefChan::default()).collect();
         RefRt { w: Arc::new(Mutex::new(w)), group: 0, legacy: false, sink: Sink::disabled(), enclosing: Arc::new(vec![]) }
     }
     /// Break the reference cycle world -> task futures -> runtime handle -> world. Must be called
@@ -736,10 +826,19 @@ impl RefRt {
         self.w.lock().unwrap().cur_task = None;
     }
     fn finish(&self, i: Tid) {
-        let mut w = self.w.lock().unwrap();
-        if let Some(t) = w.tasks[i].take() {
-            t.finished.store(true, Ordering::SeqCst);
-            w.groups[t.group].live_tasks -= 1;
+        let wakers = {
+            let mut w = self.w.lock().unwrap();
+            match w.tasks[i].take() {
+                Some(mut t) => {
+                    t.finished.store(true, Ordering::SeqCst);
+                    w.groups[t.group].live_tasks -= 1;
+                    std::mem::take(&mut t.join_wakers)
+                }
+                None => vec![],
+            }
+        };
+        for wk in wakers {
+            wk.wake();
         }
     }
     fn discard(&self, i: Tid) {
